@@ -157,7 +157,58 @@ def spec_failures(x, n, tp, delta, windows, fits, skips):
             bad.append('window-left-of-point')
         if n > 1 and np.all(np.diff(x) > 0) and np.any(windows[:, 1] <= fits):
             bad.append('window-contains')
+        if n > 1 and np.all(np.diff(x) > 0) and not bad and not_nearest(x, n, tp, fits, windows):
+            bad.append('window-not-nearest')
     return bad
+
+
+def spec_determine_fits(x, tp, delta):
+    """reference transcription of C19/Model.v `determine_fits` (the specification windows/fits/skips)"""
+    n = len(x)
+    check = delta > 0
+    fits, wins, skips = [0], [(0, tp)], []
+    skip_start, skip_range, left, right = 0, x[0] + delta, 0, tp
+    for i in range(1, n - 1):
+        if check:
+            if x[i + 1] < skip_range:
+                if skip_start == 0:
+                    skip_start = i
+                continue
+            skip_range = x[i] + delta
+            if skip_start:
+                skips.append((skip_start - 1, i + 1))
+                skip_start = 0
+        fits.append(i)
+        while right < n and x[i] - x[left] > x[right] - x[i]:
+            left += 1
+            right += 1
+        wins.append((left, right))
+    if skip_start:
+        fits.append(n - 2)
+        if tp == n or x[n - 1] - x[n - 2] < x[n - 2] - x[n - tp]:
+            wins.append((n - tp, n))
+        else:
+            wins.append((n - tp - 1, n - 1))
+        skips.append((skip_start - 1, n - 1))
+    if n > 1:
+        fits.append(n - 1)
+        wins.append((n - tp, n))
+    return wins, fits, skips
+
+
+def not_nearest(x, n, tp, fits, windows):
+    """fitted points whose window is not a nearest-neighbour window (C19_nearest), the coded exception of the
+    second-to-last branch excluded"""
+    out = []
+    for i, (l, r) in zip(fits, windows):
+        i, l, r = int(i), int(l), int(r)
+        if not (0 <= l <= i < r <= n):
+            continue
+        if i == n - 2 and (l, r) == (n - tp - 1, n - 1):
+            continue
+        if (l > 0 and x[i] - x[l - 1] < x[r - 1] - x[i]) or (r < n and x[r] - x[i] < x[i] - x[l]):
+            out.append((i, l, r))
+    return out
 
 
 def df_case_dict(x, tp, delta):
@@ -678,6 +729,76 @@ def oracle_fits(ctx, budget):
         ctx.case(('dfo', kind, n, tp, repr(delta), x.tobytes()), nontrivial=n >= 3 and 1 < len(f), kind=f'fits-oracle:{kind}')
 
 
+def brute_worst(x, y, kw, conserve, cond):
+    """largest |loess value - brute-force lstsq fit through the specified window| / tolerance over the fitted points"""
+    tp, p, delta = kw['total_points'], kw['poly_order'], kw['delta']
+    wins, fits, skips = spec_determine_fits(x, tp, delta)
+    xs = np.polynomial.polyutils.mapdomain(x, np.array([x[0], x[-1]]), np.array([-1., 1.]))
+    V = np.polynomial.polynomial.polyvander(xs, p)
+    r = run_loess(x, y, kw, conserve)
+    if r[0] != 'ok':
+        return None
+    worst = 0.0
+    for i, (l, rr) in zip(fits, wins):
+        d = np.abs(xs[l:rr] - xs[i])
+        d = d / max(d[0], d[-1])
+        k = np.sqrt((1 - d ** 3) ** 3)
+        coef = np.linalg.lstsq(k[:, None] * V[l:rr], k * y[l:rr], rcond=None)[0]
+        ref = float(V[i] @ coef)
+        tol = 256 * np.finfo(float).eps * cond * max(1.0, float(np.max(np.abs(y))))
+        worst = max(worst, abs(r[1][i] - ref) / tol)
+    return worst
+
+
+def oracle_bruteforce(ctx, budget):
+    """single-pass loess value at every fitted point = brute-force weighted least squares (lstsq, no normal
+    equations) through the window the SPECIFICATION (C19/Model.v, transcribed above) assigns to that point; a change
+    that picks other windows gives a concrete failing loess input here"""
+    P, U = mods()
+    rng = np.random.default_rng(ctx.seed * 1000 + 196)
+    for c in range(ctx.n(90, 700) * budget):
+        kind = ['uniform', 'random', 'intgrid', 'geometric', 'biggap'][c % 5]
+        n = int(rng.choice([4, 5, 6, 8, 12, 20, 40]))
+        x = gen_x(rng, n, kind)
+        p = int(rng.integers(0, 3))
+        if p + 3 > n:
+            p = 0
+        tp = int(rng.integers(p + 3, n + 1)) if c % 3 else min(n, p + 3)
+        span = float(x[-1] - x[0])
+        delta = float(rng.choice([0.0, 0.15, 0.4, 1.0, 3.0])) * span
+        if kind == 'biggap' and c % 2:
+            delta = 2 * span          # forces the second-to-last branch
+        y = gen_y(rng, x, ['smooth', 'peaks', 'noise'][c % 3])
+        cond = local_cond(P, x, tp, p, delta)
+        wins, fits, skips = spec_determine_fits(x, tp, delta)
+        ctx.case(('brute', n, p, tp, delta, x.tobytes(), y.tobytes()), nontrivial=len(fits) < n, kind=f'bruteforce:{kind}')
+        if not np.isfinite(cond) or cond > 1e8:
+            continue
+        kw = dict(total_points=tp, poly_order=p, max_iter=0, delta=delta)
+        worst = brute_worst(x, y, kw, bool(c % 2), cond)
+        if worst is None:
+            ctx.fail('brute:raises', f'loess raises on a well-conditioned configuration (cond {cond:.3g})', cfg_case({'x': x, 'y': y, 'kw': kw}))
+            continue
+        ctx.extra['bruteforce_max_difference_over_tolerance'] = max(ctx.extra.get('bruteforce_max_difference_over_tolerance', 0.0), worst)
+        if worst > 1:
+            ctx.fail('brute:fitted-value', f'a fitted value differs from the brute-force local fit through the specified window by {worst:.3g} x tolerance '
+                     f'(N={n} total_points={tp} poly_order={p} delta={delta})', cfg_case({'x': x, 'y': y, 'kw': kw}))
+
+
+def observation_second_last(ctx):
+    """C19_nearest_second_last_refuted replayed on the implementation (an observation, not a finding)"""
+    P, U = mods()
+    x = np.array([0.0, 5.0, 10.0, 11.0])
+    w, f, s = quiet(P._determine_fits, x, 4, 2, 100.0)
+    pick = [tuple(int(v) for v in ww) for ii, ww in zip(np.asarray(f), np.asarray(w).reshape(-1, 2)) if ii == 2]
+    ctx.extra['observation_second_last_nonnearest_window'] = {
+        'x': x.tolist(), 'total_points': 2, 'delta': 100.0, 'window_of_point_2': pick,
+        'reproduces': pick == [(1, 3)],
+        'meaning': 'point x=10 is fitted on {5, 10} although 11 is strictly closer than 5 (second-to-last branch compares with x[N-tp] instead of x[N-tp-1])'}
+    ctx.note('observation (not a finding): second-to-last branch picks the non-nearest window (1,3) for x=[0,5,10,11], total_points=2, delta=100: '
+             + ('reproduces on the implementation' if pick == [(1, 3)] else f'NO LONGER reproduces (implementation picks {pick})'))
+
+
 def run(ctx):
     ctx.rule = ('_determine_fits cases: x uniform/random/clustered/repeated/big-last-gap/integer/geometric, N 1..60 (oracle to 1500), '
                 'total_points 1..N (N, 1, N-1, 2 over-represented), delta 0, <0, below the smallest gap, a gap exactly, median gap, span, '
@@ -702,6 +823,8 @@ def run(ctx):
     oracle_fits(ctx, budget)
     oracle_loess(ctx, budget)
     oracle_poly(ctx, budget)
+    oracle_bruteforce(ctx, budget)
+    observation_second_last(ctx)
     ctx.note(f'oracle budget x{budget}; not covered: 2-D, unsorted x (C02), non-finite data, N > 1500, poly_order > 3; '
              'compiled-vs-interpreted values compared within an array-ulp budget only for well-conditioned local systems '
              '(total_points >= poly_order + 3, poly_order <= 2), outcomes (exception kinds, iteration counts) for all')
@@ -724,6 +847,11 @@ def replay(rep):
         if 'weights' in kw and kw['weights'] is not None:
             kw['weights'] = np.array(kw['weights'])
         rt, rf = run_loess(x, y, kw, True), run_loess(x, y, kw, False)
+        if str(rep.get('key', '')).startswith('brute:'):
+            cond = local_cond(P, x, kw['total_points'], kw['poly_order'], kw['delta'])
+            worst = brute_worst(x, y, kw, True, cond)
+            print('fitted values vs brute-force fit through the specified windows: worst difference / tolerance =', worst)
+            return 0 if (worst is not None and worst <= 1) else 1
         if str(rep.get('key', '')).startswith('numba:'):
             wres, err = worker_results([{'x': x, 'y': y, 'kw': kw}], True)
             if wres is None:
